@@ -271,13 +271,41 @@ func fieldLoad(v ssa.Value) (ssa.Value, string) {
 		}
 		if fa, ok := x.X.(*ssa.FieldAddr); ok {
 			st := fa.X.Type().Underlying().(*types.Pointer).Elem().Underlying().(*types.Struct)
-			return fa.X, st.Field(fa.Field).Name()
+			return structBase(fa.X), st.Field(fa.Field).Name()
 		}
 	case *ssa.Field:
 		st := x.X.Type().Underlying().(*types.Struct)
-		return x.X, st.Field(x.Field).Name()
+		return structBase(x.X), st.Field(x.Field).Name()
 	}
 	return nil, ""
+}
+
+// structBase: a struct that is a local copy of a value loaded from somewhere (a by-value
+// parameter of a transparent helper, `t := xs[i]`) stands for the place it was loaded from.
+func structBase(b ssa.Value) ssa.Value {
+	for i := 0; i < 4; i++ {
+		if a, ok := b.(*ssa.Alloc); ok {
+			sts := storesTo(a)
+			if len(sts) != 1 {
+				return b
+			}
+			v := strip(sts[0].val)
+			if u, isU := v.(*ssa.UnOp); isU && u.Op == token.MUL {
+				b = u.X
+				continue
+			}
+			return b
+		}
+		if _, isStruct := b.Type().Underlying().(*types.Struct); isStruct {
+			v := strip(b)
+			if u, isU := v.(*ssa.UnOp); isU && u.Op == token.MUL {
+				b = u.X
+				continue
+			}
+		}
+		return b
+	}
+	return b
 }
 
 // errResultIndex returns the index of the last result if it is an error-like interface.
@@ -435,6 +463,17 @@ func ruleP05GuardedWrite(p *Prog, r *Report) {
 // the region dominated by s and ends in a return that satisfies pred. Returns a description of
 // the first offending construct, or "".
 func rejectComplete(s *ssa.BasicBlock, pred func(*ssa.Return) string) string {
+	// inside a boolean predicate helper (transparent.go): the region must answer with one
+	// constant, and the caller's branch on that answer is the region that must reject
+	if fn := s.Parent(); isHelper(fn) && fn.Signature.Results().Len() == 1 {
+		if bt, isB := fn.Signature.Results().At(0).Type().Underlying().(*types.Basic); isB && bt.Kind() == types.Bool {
+			if next, msg := predicateContinuation(s); msg != "" {
+				return msg
+			} else if next != nil {
+				return rejectComplete(next, pred)
+			}
+		}
+	}
 	region := reachableFrom(s, nil)
 	nRet := 0
 	for b := range region {
@@ -455,6 +494,53 @@ func rejectComplete(s *ssa.BasicBlock, pred func(*ssa.Return) string) string {
 		return "no return on this edge"
 	}
 	return ""
+}
+
+// predicateContinuation: every path from s (a block of a boolean helper, dominated by s) returns
+// the same constant; returns the caller's block that is entered exactly on that answer.
+func predicateContinuation(s *ssa.BasicBlock) (*ssa.BasicBlock, string) {
+	fn := s.Parent()
+	var answer *bool
+	for b := range reachableFrom(s, nil) {
+		if !s.Dominates(b) {
+			return nil, "the path continues inside " + fn.Name() + " instead of answering"
+		}
+		if ret, ok := b.Instrs[len(b.Instrs)-1].(*ssa.Return); ok {
+			v, isK := constBool(ret.Results[0])
+			if !isK {
+				return nil, fn.Name() + " does not answer with a constant on this path"
+			}
+			if answer != nil && *answer != v {
+				return nil, fn.Name() + " answers both true and false on this path"
+			}
+			answer = &v
+		}
+	}
+	site := helperCallSite(fn)
+	if answer == nil || site == nil || site.Value() == nil {
+		return nil, "the answer of " + fn.Name() + " is not used by a caller"
+	}
+	// the If in the caller that tests the call's value (possibly negated)
+	for _, ref := range *site.Value().Referrers() {
+		pol := true
+		cur := ref
+		for {
+			if u, ok := cur.(*ssa.UnOp); ok && u.Op == token.NOT && len(*u.Referrers()) == 1 {
+				pol = !pol
+				cur = (*u.Referrers())[0]
+				continue
+			}
+			break
+		}
+		if iff, ok := cur.(*ssa.If); ok {
+			// successor taken when the call's value == *answer
+			if *answer == pol {
+				return iff.Block().Succs[0], ""
+			}
+			return iff.Block().Succs[1], ""
+		}
+	}
+	return nil, "the answer of " + fn.Name() + " is not tested by its caller"
 }
 
 // errorEdge finds the successor block entered exactly when v != nil; ok=false if v is never
